@@ -13,7 +13,7 @@ from ..src import find_all, expr_text, pat_text, lit_int, lit_float
 from ..mir import call_matches, callee_name
 from ..flow import arg_place, origins, resolve_place, value_variants
 from ..flow import expr as expr_mir
-from .c18 import (NotUnderstood, templates_in, chain, is_path, unref, pat_strings, conjuncts, first_match, tail)
+from .c18 import (NotUnderstood, templates_in, templates_deep, chain, is_path, unref, pat_strings, conjuncts, first_match, tail)
 
 CLAIM = {
     "text": "Only the table/shape clauses of C19 are decided: (1) every key written by the Serialize impls of Image, Glyph and GlyphFrame "
@@ -895,7 +895,7 @@ def run(ctx):
         dkeys = {}
         seps = set()
         names_loop = False
-        for node, tpl in templates_in(disp["body"]):
+        for node, tpl in templates_deep(src, FACE, disp):     # incl. writer helpers such as write_separator(f, &mut first)
             lits = "".join(x[1] for x in tpl if x[0] == "lit")
             holes = [x for x in tpl if x[0] == "hole"]
             if not holes:
